@@ -101,6 +101,29 @@ CLAIMED: dict[str, tuple[str, str, str, str, str]] = {
         "intraprocedural ownership/alias (freshness-depth) analysis + who-may-mutate lint + derivation shape rules",
         "DESIGN §5 C28",
     ),
+    "C16": (
+        "other",
+        "Decides the direction clause: try_coerce_to, interpreted from its syntax tree on the full 4x4 table of "
+        "actual/expected kinds (nat, int, float, non-numeric) with the enum order folded from the class body, coerces "
+        "exactly in the widening direction and asks the actual type for the conversion named after the expected kind; it is "
+        "called only from the type-mismatch fallback after unification failed; the three widening methods exist. Converted "
+        "values are not decided.",
+        "Trusted: ast parser, gsa/absint/pyeval.py (own interpreter for a pure Python fragment; outside it UNDECIDED).",
+        "finite-domain abstract evaluation of the decision function (exhaustive table) + who-may-call with guard",
+        "DESIGN §5 C16",
+    ),
+    "C17": (
+        "other",
+        "Decides the accept/reject clause: _int_bounds_check and python_value_to_guppy_type, interpreted from their syntax "
+        "trees on all boundary integers (bounds, neighbours, 0, +-1, 200-bit values, every constant that folds in the code) "
+        "for both signednesses, as scalars and at every position of tuple/list constants (lengths 1-3, also under hints of "
+        "another arity), accept exactly the in-range values at the right type; negative literals are folded first; lowering "
+        "uses the matching signedness/width; every constant entry point reaches the check. Observed run-time values are not decided.",
+        "Trusted: ast parser, gsa/absint/pyeval.py; exactness argument: the code is comparison-only against folded constants, "
+        "all of which (and their neighbours) are probed.",
+        "abstract evaluation of the range-check functions on a boundary-complete probe set + entry-point must-call",
+        "DESIGN §5 C17",
+    ),
 }
 
 NOT_APPLICABLE: dict[str, str] = {
